@@ -87,6 +87,12 @@ CHECKS = {
         "note": "Trusts the reference multimap in props/c16.py; sources with case-colliding keys are only given to add-based entry points (documented undefined otherwise).",
         "design_ref": "DESIGN.md section 4, C16",
     },
+    "C17": {
+        "technique": "model-based testing against a reference LRU: exhaustive operation sequences (length <= 5 quick / 6 thorough over 19 operations, maxsize 0..3) + Hypothesis sequences; owned-scheduler exploration (every schedule with <= 2 / 3 preemptions at line granularity inside the container methods, plus Hypothesis-drawn random schedules) with a brute-force linearizability check; Hypothesis-generated PoolManager histories on the in-memory network with responses held across evictions, and scheduled connection_from_url races",
+        "text": "The real RecentlyUsedContainer (recording dispose callback, instrumented lock) is compared with a reference LRU after every step of every short operation sequence; 2-3 real threads run container operations under a scheduler that owns every context switch, and each explored history must be explained by some sequential order of the reference with dispose exactly once and never under the caller's lock; PoolManager histories check the bound, the LRU victim, pool identity for equal keys (also racing), that in-flight responses of evicted or cleared pools finish with the right tagged body, that their sockets are closed once nothing references them, and that cached pools are never closed.",
+        "note": "Trusts the reference LRU in props/c17.py, vlib/sched.py (preemption at line events and lock operations; not inside a bytecode or C code), vlib/fakenet.py.",
+        "design_ref": "DESIGN.md section 4, C17",
+    },
     "C18": {
         "technique": "exhaustive enumeration over the keyword universe derived at run time with inspect.signature (every keyword x 2 values x 2 schemes x 3 supply paths x 3 entry points; thorough: every ordered keyword pair) + Hypothesis-drawn base contexts; oracle: pool identity relation (one differing keyword => distinct pools or rejection; none => identical pool, also under case / default-port spellings), socket-level reuse check on the in-memory network, deep snapshots of manager defaults and caller dicts",
         "text": "For every keyword any pool or connection constructor accepts, two request contexts that differ in exactly that keyword are resolved through connection_from_url / _host / _context, as manager default versus pool_kwargs and as two pool_kwargs; they must yield different pool objects or be rejected, equal contexts must yield the identical object, an unknown keyword must be rejected, a request under the second context must open its own socket, and connection_pool_kw, headers and the caller's dicts must be unchanged afterwards.",
